@@ -637,7 +637,12 @@ func (v *StrictArray) MarshalBinary() (data []byte, err error) {
 		return nil, oe.Wrap(err, "marshal")
 	}
 
-	if err = binary.Write(b, binary.BigEndian, v.count); err != nil {
+	// The count is the number of elements which follow.
+	v.lock.Lock()
+	count := uint32(len(v.properties))
+	v.lock.Unlock()
+
+	if err = binary.Write(b, binary.BigEndian, count); err != nil {
 		return nil, oe.Wrap(err, "marshal")
 	}
 
